@@ -47,7 +47,12 @@ def getitem(a, b):
         if type(a) is str:
             return SymStr.mk([select([ord(c) for c in a], b)])
         if isinstance(a, (list, tuple, bytes, range)):
-            return select(list(a), b)
+            if all(type(i) in (int, bool, SymInt, SymBool) for i in a):
+                return select(list(a), b)
+            n_ = len(a)
+            if bool(sor(b >= n_, b < -n_)):
+                raise IndexError("list index out of range" if type(a) is list else "index out of range")
+            return a[concretize(b)]     # items that are not numbers (byte strings of different lengths, objects): case split
         if isinstance(a, bytearray):
             return select(list(a), b)
         if isinstance(a, dict):
